@@ -39,7 +39,8 @@ def abs(x):
             return x * signs
         else:
             return x * np.sign(x)
-    elif x.real < 0.0:
+    elif x.real < 0.0 or (x.real == 0.0 and x.imag < 0.0):
+        # at the kink follow the direction of the imaginary step, like the array branch
         return -x
     return x
 
